@@ -158,7 +158,7 @@ pub assume_specification [f64::floor](x: f64) -> (r: f64) ensures r == f64_floor
 pub assume_specification [f64::ceil](x: f64) -> (r: f64) ensures r == f64_ceil_s(x);
 pub assume_specification [f64::round](x: f64) -> (r: f64) ensures r == f64_round_s(x);
 pub assume_specification [f64::trunc](x: f64) -> (r: f64) ensures r == f64_trunc_s(x);
-pub assume_specification [f64::recip](x: f64) -> (r: f64) ensures r == f64_recip_s(x);
+pub assume_specification [f64::recip](x: f64) -> (r: f64) ensures r == f64_div_s(1.0f64, x); // std: `1.0 / self`
 pub assume_specification [f64::signum](x: f64) -> (r: f64) ensures r == f64_signum_s(x);
 pub assume_specification [f64::tan](x: f64) -> (r: f64) ensures r == f64_tan_s(x);
 pub assume_specification [f64::powi](x: f64, n: i32) -> (r: f64) ensures r == f64_powi_s(x, n);
